@@ -121,6 +121,15 @@ func (d *driver) findTables() {
 				}
 				ld, ok := stripIdentity(st.Val).(*ssa.UnOp)
 				if !ok || ld.Op != token.MUL {
+					// a table of plain values (e.g. the ordered list of output keys): the element is its own only "field"
+					if _, isStruct := st.Val.Type().Underlying().(*types.Struct); !isStruct {
+						t := d.tables[arr]
+						if t == nil {
+							t = &drvTable{lits: map[int64]*drvLit{}}
+							d.tables[arr] = t
+						}
+						t.lits[idx.Int64()] = &drvLit{fields: map[string]ssa.Value{"": st.Val}, fn: f, pos: d.w.instrPos(ins)}
+					}
 					return
 				}
 				lit, ok := ld.X.(*ssa.Alloc)
@@ -246,6 +255,8 @@ func (d *driver) eval(v ssa.Value, e *drvEnv, depth int) symv {
 			return symv{Kind: "nil"}
 		}
 		return unknown("constant")
+	case *ssa.Global:
+		return symv{Kind: "addr", S: x.Name()}
 	case *ssa.Function:
 		return symv{Kind: "func", Fn: x, Env: &drvEnv{tbl: e.tbl, lit: e.lit}}
 	case *ssa.MakeClosure:
@@ -339,6 +350,13 @@ func (d *driver) eval(v ssa.Value, e *drvEnv, depth int) symv {
 			_, f, _, _ := fieldOf(x)
 			return d.evalLitField(f, e, depth)
 		}
+		if b.Kind == "struct" {
+			_, f, _, _ := fieldOf(x)
+			if v, ok := b.Map[f]; ok {
+				return v
+			}
+			return unknown("field " + f + " not set in the literal")
+		}
 		if b.Kind == "unknown" {
 			return b
 		}
@@ -352,10 +370,19 @@ func (d *driver) eval(v ssa.Value, e *drvEnv, depth int) symv {
 			if d.tables[a] != nil {
 				return symv{Kind: "table"}
 			}
+			if mm := d.globalInit(a); mm != nil {
+				return d.eval(mm, &drvEnv{tbl: e.tbl, lit: e.lit}, depth+1)
+			}
 			return symv{Kind: "flagvar", S: a.Name()}
 		case *ssa.IndexAddr:
 			if t := d.tableOf(a.X); t != nil {
-				return d.elemOf(t, e)
+				el := d.elemOf(t, e)
+				if el.Kind == "elem" {
+					if _, plain := e.lit.fields[""]; plain {
+						return d.evalLitField("", e, depth)
+					}
+				}
+				return el
 			}
 			return unknown("indexed value")
 		case *ssa.FieldAddr:
@@ -372,9 +399,15 @@ func (d *driver) eval(v ssa.Value, e *drvEnv, depth int) symv {
 			}
 			if al, ok := a.X.(*ssa.Alloc); ok {
 				if s := d.singleStore(al); s != nil {
-					if b := d.eval(s, e, depth+1); b.Kind == "elem" {
-						_, f, _, _ := fieldOf(a)
+					b := d.eval(s, e, depth+1)
+					_, f, _, _ := fieldOf(a)
+					if b.Kind == "elem" {
 						return d.evalLitField(f, e, depth)
+					}
+					if b.Kind == "struct" {
+						if v, ok := b.Map[f]; ok {
+							return v
+						}
 					}
 				}
 			}
@@ -382,10 +415,32 @@ func (d *driver) eval(v ssa.Value, e *drvEnv, depth int) symv {
 			if tn == "BinaryModel" {
 				return symv{Kind: "modelfield", S: f}
 			}
+			// a member of a package-level record (flag variables grouped in a struct), possibly through a pointer receiver
+			if base := d.eval(a.X, e, depth+1); base.Kind == "addr" {
+				return symv{Kind: "flagvar", S: base.S + "." + f}
+			}
 			return unknown("field " + tn + "." + f)
 		case *ssa.Alloc:
 			if s := d.singleStore(a); s != nil {
 				return d.eval(s, e, depth+1)
+			}
+			if pt, ok := a.Type().(*types.Pointer); ok {
+				if _, isStruct := pt.Elem().Underlying().(*types.Struct); isStruct {
+					out := symv{Kind: "struct", Map: map[string]symv{}}
+					for _, ref := range *a.Referrers() {
+						if fa, ok := ref.(*ssa.FieldAddr); ok {
+							_, fname, _, _ := fieldOf(fa)
+							for _, r2 := range *fa.Referrers() {
+								if st, ok := r2.(*ssa.Store); ok && st.Addr == ssa.Value(fa) {
+									out.Map[fname] = d.eval(st.Val, e, depth+1)
+								}
+							}
+						}
+					}
+					if len(out.Map) > 0 {
+						return out
+					}
+				}
 			}
 			if p, ok := a.Type().(*types.Pointer); ok && typeIs(p.Elem(), modPath+"/internal/model", "BinaryModel") {
 				return symv{Kind: "model"}
@@ -463,6 +518,30 @@ func (d *driver) eval(v ssa.Value, e *drvEnv, depth int) symv {
 		return unknown("call of a " + fv.Kind)
 	}
 	return unknown(fmt.Sprintf("%T", v))
+}
+
+// globalInit: the map literal a package-level variable is initialised with (stored once, in init).
+func (d *driver) globalInit(g *ssa.Global) ssa.Value {
+	var val ssa.Value
+	n := 0
+	for _, f := range d.w.srcFuncs {
+		if f.Pkg != d.w.Cmd {
+			continue
+		}
+		forEachInstr(f, func(_ *ssa.BasicBlock, ins ssa.Instruction) {
+			if st, ok := ins.(*ssa.Store); ok && st.Addr == ssa.Value(g) {
+				n++
+				val = st.Val
+			}
+		})
+	}
+	if n != 1 {
+		return nil
+	}
+	if _, ok := stripIdentity(val).(*ssa.MakeMap); ok {
+		return stripIdentity(val)
+	}
+	return nil
 }
 
 func isStringType(t types.Type) bool {
@@ -743,6 +822,9 @@ func (d *driver) directGates(fn *ssa.Function) (out []struct {
 			continue
 		}
 		op, ne, ok := lenGtZero(cond)
+		if !ok {
+			op, ne, ok = d.countGtZero(fn, cond)
+		}
 		if !ok || !d.syntaxErrorsOperand(fn, op, 0) {
 			continue
 		}
@@ -752,6 +834,93 @@ func (d *driver) directGates(fn *ssa.Function) (out []struct {
 		}{b, 1 - ne})
 	}
 	return
+}
+
+// countGtZero: like lenGtZero for `n > 0` where n is (a copy of) len(x) or the result of a cmd helper that returns len(x) of one
+// of its parameters; returns x as seen from fn.
+func (d *driver) countGtZero(fn *ssa.Function, cond ssa.Value) (ssa.Value, int, bool) {
+	neg := false
+	for {
+		if u, ok := cond.(*ssa.UnOp); ok && u.Op == token.NOT {
+			neg = !neg
+			cond = u.X
+			continue
+		}
+		break
+	}
+	bo, ok := cond.(*ssa.BinOp)
+	if !ok {
+		return nil, 0, false
+	}
+	zero := func(v ssa.Value) bool {
+		c, ok := v.(*ssa.Const)
+		return ok && c.Value != nil && c.Value.String() == "0"
+	}
+	var cnt ssa.Value
+	nonEmptyOnTrue := false
+	switch {
+	case zero(bo.Y) && (bo.Op == token.GTR || bo.Op == token.NEQ):
+		cnt, nonEmptyOnTrue = bo.X, true
+	case zero(bo.Y) && (bo.Op == token.EQL || bo.Op == token.LEQ):
+		cnt, nonEmptyOnTrue = bo.X, false
+	case zero(bo.X) && (bo.Op == token.LSS || bo.Op == token.NEQ):
+		cnt, nonEmptyOnTrue = bo.Y, true
+	case zero(bo.X) && (bo.Op == token.EQL || bo.Op == token.GEQ):
+		cnt, nonEmptyOnTrue = bo.Y, false
+	default:
+		return nil, 0, false
+	}
+	if neg {
+		nonEmptyOnTrue = !nonEmptyOnTrue
+	}
+	succ := 1
+	if nonEmptyOnTrue {
+		succ = 0
+	}
+	var lenArg func(v ssa.Value, depth int) ssa.Value
+	lenArg = func(v ssa.Value, depth int) ssa.Value {
+		v = stripIdentity(v)
+		c, ok := v.(*ssa.Call)
+		if !ok || depth > 2 {
+			return nil
+		}
+		if b, ok := c.Call.Value.(*ssa.Builtin); ok && b.Name() == "len" {
+			return c.Call.Args[0]
+		}
+		h := c.Call.StaticCallee()
+		if h == nil || h.Pkg != d.w.Cmd || h.Blocks == nil {
+			return nil
+		}
+		// every return of h is len(param i): the operand is the call's argument i
+		idx := -1
+		for _, b := range h.Blocks {
+			ret, ok := b.Instrs[len(b.Instrs)-1].(*ssa.Return)
+			if !ok || len(ret.Results) == 0 {
+				continue
+			}
+			a := lenArg(ret.Results[0], depth+1)
+			p, ok := stripIdentity(a).(*ssa.Parameter)
+			if a == nil || !ok {
+				return nil
+			}
+			for i, q := range h.Params {
+				if q == p {
+					if idx >= 0 && idx != i {
+						return nil
+					}
+					idx = i
+				}
+			}
+		}
+		if idx < 0 || idx >= len(c.Call.Args) {
+			return nil
+		}
+		return c.Call.Args[idx]
+	}
+	if a := lenArg(cnt, 0); a != nil {
+		return a, succ, true
+	}
+	return nil, 0, false
 }
 
 // gateHelper: fn returns a nil error only when the diagnostics are empty.
